@@ -166,8 +166,22 @@ def rewrite_output(toks):
 FWD_RE = re.compile(r'template\s*<\s*typename\s+Scalar\s*>\s*(?P<ret>[\w\s\*]+?)\s+MASA::(?P<name>\w+)\s*\(')
 
 
+REGISTRY_BINDING = [
+    # must-fire facts about the two registry objects (C12: the double and long double registries are independent): one object per scalar type,
+    # the generic accessor returns the double one, its <long double> specialisation the long double one.  Each is a rule of the table:
+    # if the text no longer has this shape the forwarder contracts (which speak about "the" registry of the call's scalar type) do not apply.
+    (r'MasterMS<double>\s+masa_master_double\s*;', 'MasterMS<double> masa_master_double;'),
+    (r'MasterMS<long double>\s+masa_master_longdouble\s*;', 'MasterMS<long double> masa_master_longdouble;'),
+    (r'template\s*<typename Scalar>\s*MasterMS<Scalar>&\s+masa_master\(\)\s*\{\s*return\s+masa_master_double\s*;\s*\}', 'generic masa_master() returns masa_master_double'),
+    (r'template\s*<>\s*MasterMS<long double>&\s+masa_master\(\)\s*\{\s*return\s+masa_master_longdouble\s*;\s*\}', 'masa_master<long double>() returns masa_master_longdouble'),
+]
+
+
 def extract_core(src_text, calls):
     s = strip_comments(src_text)
+    for pat, what in REGISTRY_BINDING:
+        if len(re.findall(pat, s)) != 1:
+            raise ExtractionBreak('registry binding changed: expected exactly one `%s` in masa_core.cpp' % what)
     funcs = []
     for m in FWD_RE.finditer(s):
         i = m.end()
@@ -253,6 +267,14 @@ def extract_core(src_text, calls):
     return funcs
 
 
+def vet_ids(fname, toks, allowed):
+    """every identifier of a rewritten helper body must belong to the contract vocabulary: state the contracts do not know about (a new
+    member, a file-scope flag) cannot be given a meaning mechanically -- it needs a contract of its own, so it is an extraction break"""
+    for k, v in toks:
+        if k == 'id' and v not in allowed:
+            raise ExtractionBreak('%s refers to %r, which is not in the vocabulary of its contract (new state or a new callee needs a contract first)' % (fname, v))
+
+
 def extract_master_helpers(src_text):
     """MasterMS::get_ms (non-const), verify_pointer_sanity, masa_exit (both settings of MASA_EXCEPTIONS)"""
     s = strip_comments(src_text)
@@ -279,6 +301,7 @@ def extract_master_helpers(src_text):
             continue
         out.append(toks[k])
         k += 1
+    vet_ids('MasterMS::get_ms', out, {'MS_DEREF', '_master_pointer', 'MasterMS__verify_pointer_sanity', 'return'})
     o.append('void MasterMS__verify_pointer_sanity(void);\n/* MasterMS::get_ms sha256=%s */\nvobj MasterMS__get_ms(void)\nCONTRACT_MasterMS__get_ms\n{%s}\n' % (info['get_ms'], render(out)))
     # verify_pointer_sanity
     m = re.search(r'void\s+MasterMS<Scalar>::verify_pointer_sanity\(\)\s*const\s*\{', s)
@@ -291,6 +314,7 @@ def extract_master_helpers(src_text):
     for idx, (kk, vv) in enumerate(toks):
         if vv == 'masa_exit':
             toks[idx] = ('id', 'GHOST_EXIT')
+    vet_ids('MasterMS::verify_pointer_sanity', toks, {'_master_pointer', 'GHOST_EXIT', 'GHOST_MSG', 'if', 'else', 'return', 'NULL'})
     o.append('/* MasterMS::verify_pointer_sanity sha256=%s */\nvoid MasterMS__verify_pointer_sanity(void)\nCONTRACT_MasterMS__verify_pointer_sanity\n{%s}\n' % (
         info['verify_pointer_sanity'], render(toks)))
     # masa_exit
